@@ -1,7 +1,7 @@
 #!/bin/bash
 # usage: tools_raw.sh <pkg> <run-regex> [checks] [seed]  — builds and runs one unit, raw output
 set -e
-B=$(ls -d /verif/.build/*/ | head -1)
+B=$(for d in /verif/.build/*/; do grep -q "=> /repo" $d/go.mod 2>/dev/null && echo $d && break; done)
 export GOFLAGS=-mod=mod GOPROXY=off GOSUMDB=off GOTOOLCHAIN=local
 cd /repo && go test -c -vet=off -tags verif,verifwb -modfile=$B/go.mod -overlay=$B/overlay.json -o /dev/shm/raw.test $1
-mkdir -p /dev/shm/raw && cd /dev/shm/raw && VERIF_SCRATCH=/dev/shm/raw VERIF_SEED_EFFECTIVE=${4:-1} VERIF_KNOWN=/verif/known-findings.json VERIF_REPLAY_DIR=/dev/shm/raw/replays /dev/shm/raw.test -test.run "$2" -rapid.checks=${3:-100} -rapid.seed=${4:-1} -rapid.nofailfile -test.v 2>/dev/null
+mkdir -p /dev/shm/raw && cd /dev/shm/raw && VERIF_SCRATCH=/dev/shm/raw VERIF_SEED_EFFECTIVE=${4:-1} VERIF_KNOWN=${VERIF_KNOWN:-/verif/known-findings.json} VERIF_REPLAY_DIR=/dev/shm/raw/replays /dev/shm/raw.test -test.run "$2" -rapid.checks=${3:-100} -rapid.seed=${4:-1} -rapid.nofailfile -test.v 2>${RAW_STDERR:-/dev/null}
